@@ -2,6 +2,7 @@ package props
 
 import (
 	"fmt"
+	"reflect"
 	"sort"
 	"testing"
 	"time"
@@ -27,6 +28,34 @@ type c11Case struct {
 	F int64 `json:"f,omitempty"`
 	// Dup: the list holds its first cue a second time, the same object (as after merging a list into itself)
 	Dup bool `json:"dup,omitempty"`
+	// Roll: the Lines of the cues are slices of shared backing arrays - a cue whose lines are a prefix of another cue's
+	// lines is that cue's slice cut short (roll-up captions built incrementally): sharing storage is not sharing text
+	Roll bool `json:"roll,omitempty"`
+}
+
+// rollUp re-slices the cues' lines out of shared backing arrays (see c11Case.Roll) and takes the snapshots again.
+func rollUp(b *builtList, cues []cueSpec) {
+	ls := make([][]astisub.Line, len(cues))
+	for i, c := range cues {
+		ls[i] = textLines(c.T)
+	}
+	masters := map[int][]astisub.Line{}
+	for i := range cues {
+		if len(ls[i]) == 0 {
+			continue
+		}
+		best := i
+		for j := range cues {
+			if len(ls[j]) > len(ls[best]) && reflect.DeepEqual(ls[j][:len(ls[i])], ls[i]) {
+				best = j
+			}
+		}
+		if _, ok := masters[best]; !ok {
+			masters[best] = textLines(cues[best].T)
+		}
+		b.items[i].Lines = masters[best][:len(ls[i])]
+		b.snaps[i] = snapItem(b.items[i])
+	}
 }
 
 func init() { register("c11", checkC11) }
@@ -78,6 +107,9 @@ func checkC11(c c11Case) string {
 		return checkC11Inverse(c)
 	}
 	b := buildList(c.Cues)
+	if c.Roll {
+		rollUp(b, c.Cues)
+	}
 	if c.Dup && len(c.Cues) > 0 {
 		// (the specification sees two entries with the same values)
 		c.Cues = append(append([]cueSpec(nil), c.Cues...), c.Cues[0])
@@ -308,7 +340,7 @@ func TestC11(t *testing.T) {
 	texts3 := []string{"a", "b", "a|b"}
 	textsR := []string{"a", "b", "a|b", "ab", "a+b", "a|+b", "a|", "|a", " a", "a ", "a| b", "liquid", "costarring", "Aa", "BB", "plumless", "buckeroo", "hetairas", "mentioner", "~", "", "A", "B", "a|B", "caf\u00e9", "cafe\u0301", "\u212b", "\u00c5", "AT&amp;T", "AT&T", "a&lt;b", "a<b"} // "a|" and "|a": "a" with an empty line after or before it; " a", "a ", "a| b": padded with a blank (all other texts than "a" / "a|b")
 	// Exhaustive: every list (any order) of <=4 cues on the 0..N grid with 3 texts.
-	grid := func(name string, maxN int, max int64) {
+	grid := func(name string, maxN int, max int64, roll bool) {
 		sub(t, name, func(t *testing.T) {
 			var alpha []cueSpec
 			for s := int64(0); s <= max; s++ {
@@ -323,18 +355,18 @@ func TestC11(t *testing.T) {
 			var rec func()
 			rec = func() {
 				if idx%cfgShards == cfgShard {
-					c := c11Case{Cues: cur}
+					c := c11Case{Cues: cur, Roll: roll}
 					nt, ls := c11NonTrivial(c)
 					var key uint64
 					if nt {
-						key = strHash(fmt.Sprintf("%v", cur))
+						key = strHash(fmt.Sprintf("%v%v", cur, roll))
 					}
 					ev.CaseH(nt, key, ls...)
 					if nt && idx%5000 == 0 {
-						ev.Sample(name, c11Case{Cues: append([]cueSpec(nil), cur...)})
+						ev.Sample(name, c11Case{Cues: append([]cueSpec(nil), cur...), Roll: roll})
 					}
 					if msg := guarded(func() string { return checkC11(c) }); msg != "" {
-						verdict(t, "C11", "c11", c11Case{Cues: append([]cueSpec(nil), cur...)}, checkC11)
+						verdict(t, "C11", "c11", c11Case{Cues: append([]cueSpec(nil), cur...), Roll: roll}, checkC11)
 					}
 				}
 				idx++
@@ -351,18 +383,24 @@ func TestC11(t *testing.T) {
 			ev.Note("exhaustive-"+name, fmt.Sprintf("all %d lists (any order) of <=%d cues on the 0..%d ms grid with 3 texts, over all shards", idx, maxN, max))
 		})
 	}
-	grid("grid3", 3, 4)
+	grid("grid3", 3, 4, false)
+	grid("grid2-rollup", 2, 4, true)
 	if thorough() {
-		grid("grid4", 4, 3)
+		grid("grid4", 4, 3, false)
+		grid("grid3-rollup", 3, 4, true)
 	}
 
 	rapidCheck(t, "C11/random", tier(10000, 1000000), func(rt *rapid.T) {
 		maxT := rapid.SampledFrom([]int64{12 * nsMs, 200 * nsMs, 3600 * 1000 * nsMs}).Draw(rt, "range")
 		cues := genCues(rt, 0, 9, maxT, textsR)
 		c := c11Case{Cues: cues, Dup: rapid.IntRange(0, 5).Draw(rt, "dup") == 0}
+		c.Roll = rapid.IntRange(0, 3).Draw(rt, "rollup") == 0
 		nt, ls := c11NonTrivial(c)
 		if c.Dup {
 			ls = append(ls, "same-cue-object-twice")
+		}
+		if c.Roll {
+			ls = append(ls, "lines-share-backing-arrays")
 		}
 		ev.Case(nt, fmt.Sprintf("%v", c), append(ls, "random")...)
 		if nt {
